@@ -178,6 +178,62 @@ func getKeysNode(c *ssa.CallCommon) ssa.Value {
 	return nil
 }
 
+// fetchHelper recognises an extracted "value of a leaf" helper: H(.., node, ..) performs exactly one Get, for its
+// node parameter's own keys, only when that node's kind is variable, and returns the fetched value (or the node's
+// literal) with the fetcher's error. It returns the index of the node parameter.
+func fetchHelper(w *World, fn *ssa.Function) (int, bool) {
+	if fn == nil || !w.funcSet[fn] || len(fn.Blocks) == 0 {
+		return 0, false
+	}
+	k := loadNodeKinds(w)
+	var get *ssa.Call
+	n := 0
+	EachInstr(fn, func(in ssa.Instruction) {
+		if c, ok := in.(*ssa.Call); ok && isGetInvoke(&c.Call) {
+			get = c
+			n++
+		}
+	})
+	if n != 1 {
+		return 0, false
+	}
+	node := getKeysNode(&get.Call)
+	p, ok := node.(*ssa.Parameter)
+	if !ok {
+		return 0, false
+	}
+	idx := -1
+	for i, q := range fn.Params {
+		if q == p {
+			idx = i
+		}
+	}
+	kinds := k.kindsPossibleAt(get.Block(), func(x ssa.Value) bool { return x == ssa.Value(p) })
+	if idx < 0 || kinds == nil || !kinds[k.variable] || kinds[k.constant] {
+		return 0, false
+	}
+	okVal := func(v ssa.Value) bool {
+		var leaves []leafAt
+		expandPhis(v, nil, map[*ssa.Phi]bool{}, &leaves)
+		for _, lf := range leaves {
+			if base, okf := loadOfField(lf.v, "node", "value"); okf && base == ssa.Value(p) {
+				continue
+			}
+			if ex, okx := lf.v.(*ssa.Extract); okx && ex.Index == 0 && ex.Tuple == ssa.Value(get) {
+				continue
+			}
+			return false
+		}
+		return len(leaves) > 0
+	}
+	for _, ret := range allReturns(fn) {
+		if len(ret.Results) != 2 || !okVal(ret.Results[0]) {
+			return 0, false
+		}
+	}
+	return idx, true
+}
+
 func runC03(w *World, r *Report) {
 	runC03Sites(w, r)
 	ruleStepArgs(w, r, ruleStepRes(w, r, "(*Expr).Eval"))
@@ -232,10 +288,14 @@ func runC03Sites(w *World, r *Report) {
 			return
 		}
 		pos := w.InstrPos(c)
+		helperIdx, isHelper := fetchHelper(w, c.Call.StaticCallee())
 		switch {
-		case isGetInvoke(&c.Call):
+		case isGetInvoke(&c.Call) || isHelper:
 			what := describe(c)
 			n := getKeysNode(&c.Call)
+			if isHelper {
+				n = c.Call.Args[helperIdx]
+			}
 			if n == nil {
 				r.Fail(rule, pos, name, what, "the fetch does not pass varKey and name of one and the same node")
 				return
@@ -260,6 +320,9 @@ func runC03Sites(w *World, r *Report) {
 				childKinds := k.kindsPossibleAt(c.Block(), func(x ssa.Value) bool { return x == n || sameValueShape(x, n) })
 				// children of a fast operator are leaves (R-KIND): separating variable from constant suffices
 				childOK := childKinds != nil && childKinds[k.variable] && !childKinds[k.constant]
+				if isHelper {
+					childOK = true // the helper itself fetches only under kind(node) == variable (fetchHelper)
+				}
 				r.Check(only(kc, k.fastOperator) && childOK, rule, pos, name, what,
 					fmt.Sprintf("inlined leaf operand %d of a fast operator, under kind(child) == variable", off), "a node after the current one is fetched outside the fast-operator allowance, or without its kind being variable")
 			default:
@@ -376,6 +439,13 @@ func ruleFastOrder(w *World, r *Report, l *evalLoop, gets map[string][]*ssa.Call
 				if c, ok := ex.Tuple.(*ssa.Call); ok && isGetInvoke(&c.Call) {
 					if n := getKeysNode(&c.Call); n != nil {
 						if off, ok := l.nodeAt(n); ok && off == slot+1 {
+							continue
+						}
+					}
+				}
+				if c, ok := ex.Tuple.(*ssa.Call); ok {
+					if hi, isH := fetchHelper(w, c.Call.StaticCallee()); isH {
+						if off, ok := l.nodeAt(c.Call.Args[hi]); ok && off == slot+1 {
 							continue
 						}
 					}
@@ -563,7 +633,69 @@ func ruleScJump(w *World, r *Report, l *evalLoop) {
 					}
 				}
 			}
-			return (bF && fF && !bT) || (bT && fT && !bF)
+			if (bF && fF && !bT) || (bT && fT && !bF) {
+				return true
+			}
+			// the same condition with the mask chosen first: mask = b ? scIfTrue : scIfFalse; flag&mask == mask
+			for _, f := range facts {
+				bo, ok := f.Cond.(*ssa.BinOp)
+				if !ok || bo.Op != token.EQL || !f.Truth {
+					continue
+				}
+				for _, side := range [][2]ssa.Value{{bo.X, bo.Y}, {bo.Y, bo.X}} {
+					and, ok := side[0].(*ssa.BinOp)
+					mask, okp := side[1].(*ssa.Phi)
+					if !ok || !okp || and.Op != token.AND {
+						continue
+					}
+					var flagSide ssa.Value
+					switch {
+					case and.X == ssa.Value(mask):
+						flagSide = and.Y
+					case and.Y == ssa.Value(mask):
+						flagSide = and.X
+					default:
+						continue
+					}
+					if _, okf := loadOfField(flagSide, "node", "flag"); !okf {
+						continue
+					}
+					good := len(mask.Edges) >= 2
+					for i, e := range mask.Edges {
+						if e == ssa.Value(mask) {
+							continue // loop-carried unchanged
+						}
+						c, okc := constInt(e)
+						if !okc {
+							good = false
+							continue
+						}
+						pred := mask.Block().Preds[i]
+						var eb, ebT, ebF bool
+						for _, pf := range append(factsAt(pred), factsAtEdgeTo(pred, mask.Block())...) {
+							if ex, ok := pf.Cond.(*ssa.Extract); ok && ex.Index == 0 {
+								if ta, ok := ex.Tuple.(*ssa.TypeAssert); ok {
+									if bt, ok := ta.AssertedType.Underlying().(*types.Basic); ok && bt.Kind() == types.Bool {
+										eb = true
+										if pf.Truth {
+											ebT = true
+										} else {
+											ebF = true
+										}
+									}
+								}
+							}
+						}
+						if !eb || (ebT && c != scT) || (ebF && c != scF) || (ebT && ebF) {
+							good = false
+						}
+					}
+					if good {
+						return true
+					}
+				}
+			}
+			return false
 		}
 		good := check(factsAt(u.Block())) || everyEdgeInto(u.Block(), check)
 		r.Check(good, rule, w.InstrPos(u), name, "i = curt.scIdx (short-circuit jump)", "taken only for a false result with scIfFalse set or a true result with scIfTrue set", "the short-circuit jump is taken under another condition: operands that must run are skipped, or decided operands still run")
